@@ -70,3 +70,27 @@ Fixpoint lsd_sorts {A} (les : list (A -> A -> bool)) (l : list A) : list A :=
   end.
 
 Definition flipb {A} (le : A -> A -> bool) (x y : A) : bool := le y x.
+
+(* ---- what the generated file Gen/Gen_c12.v says about the code's loop directions ---- *)
+(* `[... for i in range(d-1, -1, -1)]` = RangeDown ; `range(d)` = RangeUp *)
+Inductive range_dir := RangeDown | RangeUp.
+
+Definition dir_apply {X} (d : range_dir) (vecs : list X) : list X :=
+  match d with RangeDown => rev vecs | RangeUp => vecs end.
+
+Record sort_params := mk_sort_params {
+  p_sifo_arr : range_dir;      (* sort_index_for_order: 2-D array key result *)
+  p_sifo_idx : range_dir;      (* sort_index_for_order: IndexHierarchy (values_at_depth) *)
+  p_sifo_thr : Z;              (* `if cfs_depth > THR` selects lexsort *)
+  p_sifo_desc : bool;          (* `if not ascending: order = order[::-1]` present *)
+  p_fsv0_arr : range_dir;      (* Frame.sort_values axis 0: 2-D array *)
+  p_fsv0_frame : range_dir;    (* Frame.sort_values axis 0: Frame / TypeBlocks rows *)
+  p_fsv1_arr : range_dir;      (* Frame.sort_values axis 1: 2-D array *)
+  p_fsv1_frame : range_dir;    (* Frame.sort_values axis 1: Frame / TypeBlocks columns *)
+  p_fsv_desc : bool;           (* Frame.sort_values: order[::-1] when descending *)
+  p_ssv_desc : bool            (* Series.sort_values: order[::-1] when descending *)
+}.
+
+(* what the refinement theorems need the code to say *)
+Definition good_params : sort_params :=
+  mk_sort_params RangeDown RangeDown 1 true RangeDown RangeDown RangeDown RangeDown true true.
